@@ -626,6 +626,9 @@ func runC02(r *Run) {
 	r.Rule("R8", "see C05 R4 (imported): every write to revertible StateDB state is journalled, every entry's Revert restores what was written after it was appended, from recorded values")
 	r.Import("R8/C05.", []string{"R4"}, runC05)
 
+	r.Rule("R9", "PATH.params-authority: the message handlers of x/evm and of Haqq's x/bank wrapper whose request carries an Authority field (MsgUpdateParams — the EVM denomination, the active precompiles; bank send-enabled) write module state only where that field equals the module authority: the EVM denomination that Commit mints and burns is not changeable by an ordinary signer")
+	r.Floor("R9", "authority-guarded message handlers (x/evm, x/bank)", checkAuthorityGuards(r, "R9", "x/evm/keeper", "x/bank/keeper"), 2)
+
 	// R7: an account object that replaces another inherits its balance
 	r.Rule("R7", "PATH.create-carries-balance: StateDB.CreateAccount (CREATE/CREATE2 onto an address that already has an account object or a bank balance) sets the new object's balance from the previous object's balance on every path on which createObject returned a previous object — whatever the previous object's journal state; the balance cached in an object is what Commit writes, so an object that starts at zero burns the address's coins")
 	if ca, ok := P.FnOK("(*x/evm/statedb.StateDB).CreateAccount"); ok {
